@@ -264,6 +264,14 @@ def PyTy.isAttrsOrNone : PyTy → Bool
   | .none => true
   | _ => false
 
+/-- one item of a mapping: the key handler on the key (identity for `str`), the value handler on the value -/
+def dictEntry (recur : PyTy → Json → Except Err PyVal) (k v : PyTy) (kv : Name × Json) : Except Err (PyVal × PyVal) := do
+  let kk ← (match k with
+    | .str => Except.ok (PyVal.str kv.1)
+    | _ => recur k (.str kv.1))
+  let vv ← recur v kv.2
+  .ok (kk, vv)
+
 /-- `converter.structure(j, T)` in cattrs' dispatch order. -/
 def structTy (E : Env) : Nat → PyTy → Json → Except Err PyVal
   | 0, _, _ => .error .fuel
@@ -321,12 +329,7 @@ def structTy (E : Env) : Nat → PyTy → Json → Except Err PyVal
       | .dict k v =>
         (match j with
          | .obj kvs => do
-           let ps ← mapE (fun (kv : Name × Json) => do
-             let kk ← (match k with
-               | .str => Except.ok (PyVal.str kv.1)
-               | _ => structTy E n k (.str kv.1))
-             let vv ← structTy E n v kv.2
-             .ok (kk, vv)) kvs
+           let ps ← mapE (dictEntry (structTy E n) k v) kvs
            .ok (.dict ps)
          | _ => .error (.typeError "no .items()"))
       | .tuple ts =>
